@@ -737,6 +737,16 @@ func ExecDefer(in []string) []string { return execWith(in, true) }
 
 func Exec(in []string) []string { return execWith(in, false) }
 
+// AllowRcpt: the next execWith registers a listener that allows every recipient.
+var AllowRcpt bool
+
+// ExecAllow is Exec with an extension listener that answers every RCPT with an explicit allow.
+func ExecAllow(in []string) []string {
+	AllowRcpt = true
+	defer func() { AllowRcpt = false }()
+	return execWith(in, false)
+}
+
 func execWith(in []string, deferAll bool) []string {
 	c := ParseCfg(in[:NFields])
 	// "<plain hex>@<secure hex>": a server with STARTTLS configured; the client sends the first part in plaintext,
@@ -762,6 +772,12 @@ func execWith(in []string, deferAll bool) []string {
 		return []string{"SETUPERR", vh.HS(err.Error())}
 	}
 	defer env.Close()
+	if AllowRcpt {
+		// an extension that explicitly allows every recipient: the accept policy is overridden, the store policy is not
+		env.Host.Events.BeforeRcptToAccepted.AddListener("verif-allow", func(event.SMTPSession) *event.SMTPResponse {
+			return &event.SMTPResponse{Action: event.ActionAllow}
+		})
+	}
 	if deferAll {
 		env.Host.Events.BeforeMailFromAccepted.AddListener("verif-defer", func(event.SMTPSession) *event.SMTPResponse {
 			return &event.SMTPResponse{Action: event.ActionDefer}
